@@ -1,2 +1,4 @@
 pub mod runner;
 pub mod sched;
+pub mod cli;
+pub mod clihist;
